@@ -1337,4 +1337,276 @@ theorem ea_init_accept {n : Nat} {s : DsStep.S} {ms : Spec.DSMon.S} (h : Rel n s
     refine R_transport hmp0 hfr.1 ?_
     simp only [eaBlk, bufBlocks_congr hal'']; omega
 
+/-! ## elastic queue: the monitor accepts the model's answers -/
+
+theorem eqAns_out (e : EqOp) (an : EqAns) (q' : EQueue.EQ) (m m' : Mem) (hst : an.st ≠ .oob)
+    (hrf : an.refused = decide (rf m m' > 0)) : eqAns (eqOutOf e an q' m m').ans = some an := by
+  obtain ⟨st, refused, len, got⟩ := an
+  simp only at hst hrf
+  subst hrf
+  cases got with
+  | none => cases e <;> cases st <;> simp_all [eqOutOf, eqExtraOf, Out.ans, eqAns, stOf, headOfSt]
+  | some b => cases e <;> cases st <;> simp_all [eqOutOf, eqExtraOf, Out.ans, eqAns, stOf, headOfSt]
+
+theorem eqOutOf_not_skip (e : EqOp) (an : EqAns) (q' : EQueue.EQ) (m m' : Mem) :
+    (eqOutOf e an q' m m').ans.isJust .skip = false := by
+  obtain ⟨st, refused, len, got⟩ := an
+  cases got <;> cases e <;> cases st <;> simp [eqOutOf, eqExtraOf, Out.ans, Ans.isJust, headOfSt]
+
+theorem mon_eq (ms : Spec.DSMon.S) (i : List (List UInt8)) (hms : ms.eq = some i) (op : Op) (e : EqOp)
+    (he : eqOpOf ms.eqr op = some e) (A : Ans) (hskip : A.isJust .skip = false) :
+    ∃ why, monStep ms op A = eqJudge ms i e A why := by
+  cases op <;> simp only [eqOpOf, reduceCtorEq, Option.some.injEq] at he <;> subst he
+  case eqAdd seed => exact ⟨_, by simp only [monStep, hms]; rfl⟩
+  case eqDel => exact ⟨_, by simp only [monStep, hms]; rfl⟩
+  case eqLen => exact ⟨_, by simp only [monStep, hms]; rfl⟩
+  case eqGet pos => exact ⟨_, by simp only [monStep, hms]; rfl⟩
+  case eqSet pos seed => exact ⟨_, by simp only [monStep, hms, hskip]; simp only [Bool.false_eq_true, if_false]; rfl⟩
+
+theorem eqJudge_accept (ms : Spec.DSMon.S) (i i' : List (List UInt8)) (e : EqOp) (A : Ans) (why : String) (an : EqAns)
+    (h1 : eqAns A = some an) (h2 : eqAdmit i e an = some i') :
+    eqJudge ms i e A why = ({ ms with eq := some i' }, none) := by
+  simp [eqJudge, h1, h2]
+
+theorem eq_step_refused (q : EQueue.EQ) (e : EqOp) (m : Mem) :
+    (EQueue.step q e m).1.refused = ((EQueue.step q e m).2.2.refusals != m.refusals) := by
+  cases e <;> simp only [EQueue.step] <;> (repeat' split) <;> simp_all [EQueue.ans]
+
+theorem eqAdmit_not_oob {i i' : List (List UInt8)} {op : EqOp} {a : EqAns} (h : eqAdmit i op a = some i') : a.st ≠ .oob := by
+  intro hst
+  cases op <;> simp [eqAdmit, hst] at h
+
+theorem eq_small {q : EQueue.EQ} (h : EQueue.QInv q) (hcap : q.ea.alloc ≤ cap) (hr : q.reclen.val + cap ≤ SIZE_MAX) :
+    (q.offset + q.len + 1) * q.reclen.val ≤ EArray.SIZE_MAX := by
+  have := h.sz; have := h.ea.le
+  rw [Nat.succ_mul, ← SIZE_MAX_same] at *
+  omega
+
+theorem eq_step_live (q : EQueue.EQ) (e : EqOp) (m : Mem) (h : EQueue.QInv q)
+    (hc : eqContract q.reclen.val (EQueue.abs q) e)
+    (hsmall : (q.offset + q.len + 1) * q.reclen.val ≤ EArray.SIZE_MAX) :
+    (EQueue.step q e m).2.2.live + bufBlocks q.ea = m.live + bufBlocks (EQueue.step q e m).2.1.ea := by
+  cases e with
+  | add rec =>
+    have hs := (EQueue.add_spec q rec m h hc (by rw [h.sz]; rw [Nat.succ_mul] at hsmall; exact hsmall)).2.2.2.2.2
+    simp only [EQueue.step]
+    rcases hres : EQueue.add q rec m with ⟨st, q', m'⟩
+    rw [hres] at hs; exact hs
+  | delete =>
+    have hs := (EQueue.delete_spec q m h).2.2.2.2.2.2
+    simp only [EQueue.step]
+    rcases hres : EQueue.delete q m with ⟨st, q', m'⟩
+    rw [hres] at hs; exact hs
+  | getlen => rfl
+  | get pos => simp only [EQueue.step]; split <;> rfl
+  | set pos rec =>
+    simp only [EQueue.step]
+    split
+    · rename_i q' hq; simp only; rw [bufBlocks_congr (eq_set_alloc hq)]
+    · rfl
+
+theorem eq_accept_core {n : Nat} {s : DsStep.S} {ms : Spec.DSMon.S} (h : Rel n s ms) {q : EQueue.EQ}
+    (hs : s.eq = some q) {op : Op} {e : EqOp} (he : eqOpOf q.reclen.val op = some e)
+    (hc : eqContract q.reclen.val (EQueue.abs q) e) : StepGoal n s ms op := by
+  have heq := h.eq
+  have hmp := h.mp
+  rw [hs] at heq hmp
+  obtain ⟨hinv, hcap, hrl, hms, heqr⟩ := heq
+  have hsmall := eq_small hinv hcap hrl
+  have hst := EQueue.qstep_ok q e s.m hinv hc hsmall
+  obtain ⟨hinv', hrl', hadm, _⟩ := hst
+  have hlive := eq_step_live q e s.m hinv hc hsmall
+  have hno := eqAdmit_not_oob hadm
+  have frame := eq_step_frame q e s.m
+  unfold StepGoal
+  rw [eq_stepOp s q hs op e he hno]
+  simp only
+  obtain ⟨why, hmon⟩ := mon_eq ms (EQueue.abs q) hms op e (by rw [heqr]; exact he)
+    (eqOutOf e (EQueue.step q e s.m).1 (EQueue.step q e s.m).2.1 s.m (EQueue.step q e s.m).2.2).ans
+    (eqOutOf_not_skip _ _ _ _ _)
+  rw [hmon, eqJudge_accept ms _ _ e _ why _
+    (eqAns_out _ _ _ _ _ hno (by rw [eq_step_refused, rf_pos frame.1])) hadm]
+  refine ⟨rfl, ⟨h.capped.ext frame.1, h.ea, ⟨hinv', frame.2 h.capped hcap, by rw [hrl']; exact hrl, rfl, by rw [hrl']; exact heqr⟩,
+    h.sm.mono (Nat.le_succ _), ?_, h.inUse⟩⟩
+  refine R_transport hmp frame.1 ?_
+  simp only [eqBlk]
+  omega
+
+theorem eq_absent_accept {n : Nat} {s : DsStep.S} {ms : Spec.DSMon.S} (h : Rel n s ms) (hs : s.eq = none) (op : Op)
+    (hop : match op with
+      | .eqAdd .. | .eqDel | .eqLen | .eqGet .. | .eqSet .. | .eqDump | .eqFree => True
+      | _ => False) : StepGoal n s ms op := by
+  have hms : ms.eq = none := by have := h.eq; rw [hs] at this; exact this
+  cases op <;> simp only at hop <;>
+    exact word_accept h .skip (by simp [stepOp, hs]) (by simp [monStep, hms, okOr, isJust_skip, headOfWord])
+
+theorem eq_set_accept {n : Nat} {s : DsStep.S} {ms : Spec.DSMon.S} (h : Rel n s ms) {q : EQueue.EQ}
+    (hs : s.eq = some q) (pos seed : Nat) : StepGoal n s ms (.eqSet pos seed) := by
+  have heq := h.eq
+  rw [hs] at heq
+  obtain ⟨hinv, hcap, hrl, hms, heqr⟩ := heq
+  by_cases hp : pos < q.len
+  · exact eq_accept_core h hs (e := .set pos (patBytes seed q.reclen.val)) rfl
+      ⟨by rw [EQueue.abs_length]; exact hp, patBytes_length _ _⟩
+  · refine word_accept h .skip (by simp [stepOp, hs]; omega) ?_
+    simp only [monStep, hms, headOfWord, isJust_skip, if_true, EQueue.abs_length, hp, if_false]
+
+theorem eq_free_accept {n : Nat} {s : DsStep.S} {ms : Spec.DSMon.S} (h : Rel n s ms) {q : EQueue.EQ}
+    (hs : s.eq = some q) : StepGoal n s ms .eqFree := by
+  have heq := h.eq
+  have hmp := h.mp
+  rw [hs] at heq hmp
+  obtain ⟨hinv, hcap, hrl, hms, heqr⟩ := heq
+  unfold StepGoal
+  simp only [stepOp, hs, monStep, hms, Out.ans]
+  refine ⟨by decide, ⟨h.capped.ext (eq_free_ext _ _), h.ea, rfl, h.sm.mono (Nat.le_succ _), ?_, h.inUse⟩⟩
+  refine R_transport hmp (eq_free_ext _ _) ?_
+  simp only [eqBlk]
+  rw [EQueue.free_live]; omega
+
+theorem map_getElem_range {α : Type} (l : List α) : (List.range l.length).map (fun i => l[i]?) = l.map some := by
+  apply List.ext_getElem?
+  intro i
+  by_cases hi : i < l.length
+  · simp [hi]
+  · simp [hi]
+
+theorem mapM_id_some {α : Type} (l : List α) : (l.map some).mapM id = some l := by
+  induction l with
+  | nil => rfl
+  | cons x rest ih => simp [List.mapM_cons, ih]
+
+theorem eq_dump_accept {n : Nat} {s : DsStep.S} {ms : Spec.DSMon.S} (h : Rel n s ms) {q : EQueue.EQ}
+    (hs : s.eq = some q) : StepGoal n s ms .eqDump := by
+  have heq := h.eq
+  rw [hs] at heq
+  obtain ⟨hinv, hcap, hrl, hms, heqr⟩ := heq
+  have hne : (EQueue.abs q).map some ≠ [some []] := by
+    intro hh
+    have hm : ([] : List UInt8) ∈ EQueue.abs q := by
+      have : some ([] : List UInt8) ∈ (EQueue.abs q).map some := by rw [hh]; simp
+      simpa using this
+    have := Percival.Proofs.SeqMap.abs_mem_length q hinv _ hm
+    have := q.reclen.property
+    simp at *; omega
+  unfold StepGoal
+  simp only [stepOp, hs]
+  generalize hl : List.map _ (List.range q.len) = l
+  have hrecs : l = (EQueue.abs q).map some := by
+    rw [← hl, ← map_getElem_range, EQueue.abs_length]
+    apply List.map_congr_left
+    intro i _
+    exact (EQueue.get_abs q i hinv).symm
+  subst hrecs
+  simp only [Out.ans, recsAns, hne, if_false, mapM_id_some]
+  simp only [monStep, hms, headOfSt, EQueue.abs_length]
+  simp only [beq_self_eq_true, and_self, if_true]
+  exact ⟨trivial, h.mono⟩
+
+def eqFreed (s : DsStep.S) : Mem := match s.eq with | some q => EQueue.free q s.m | none => s.m
+
+theorem eq_release {n : Nat} {s : DsStep.S} {ms : Spec.DSMon.S} (h : Rel n s ms) :
+    Ext s.m (eqFreed s) ∧ MPool.R s.mp (eqFreed s) s.inUse (eaBlk s.ea + smBlk s.sm) := by
+  have hmp := h.mp
+  unfold eqFreed
+  cases hs : s.eq with
+  | none => rw [hs] at hmp; simp only [eqBlk, Int.add_zero] at hmp; exact ⟨Ext.refl _, hmp⟩
+  | some a =>
+    rw [hs] at hmp
+    refine ⟨eq_free_ext _ _, R_transport hmp (eq_free_ext _ _) ?_⟩
+    simp only [eqBlk]; rw [EQueue.free_live]; omega
+
+theorem stepOp_eqInit (s : DsStep.S) (reclen : Nat) (r : RecLen) (hmk : mkRecLen reclen = some r) :
+    stepOp s (.eqInit reclen) =
+      match EQueue.init r (eqFreed s) with
+      | (none, m') => ({ s with m := m', eq := none }, .initFail (rf (eqFreed s) m') (l2c (eqFreed s) m'))
+      | (some q, m') => ({ s with m := m', eq := some q }, .eq .ok q.len (rf (eqFreed s) m') .none (eqL2 q (eqFreed s) m')) := by
+  simp only [stepOp, hmk]; rfl
+
+theorem eq_init_accept {n : Nat} {s : DsStep.S} {ms : Spec.DSMon.S} (h : Rel n s ms) (reclen : Nat)
+    (hr : 0 < reclen) (hrl : reclen + cap ≤ SIZE_MAX) : StepGoal n s ms (.eqInit reclen) := by
+  obtain ⟨hext0, hmp0⟩ := eq_release h
+  have hmk := mk_some hr
+  unfold StepGoal
+  rw [stepOp_eqInit s reclen _ hmk]
+  generalize eqFreed s = m0 at *
+  have hc0 := h.capped.ext hext0
+  have hsp := EQueue.init_spec ⟨reclen, hr⟩ m0
+  have hfr := eq_init_frame ⟨reclen, hr⟩ m0
+  rcases hres : EQueue.init ⟨reclen, hr⟩ m0 with ⟨oq, m'⟩
+  rw [hres] at hsp hfr
+  simp only at hsp hfr
+  have hext := hext0.trans hfr.1
+  cases oq with
+  | none =>
+    dsimp only
+    simp only [Out.ans]
+    simp only [monStep]
+    have : (some (rf m0 m')).getD 0 > 0 := by simp only [Option.getD_some, rf]; omega
+    rw [if_pos this]
+    refine ⟨rfl, ⟨h.capped.ext hext, h.ea, rfl, h.sm.mono (Nat.le_succ _), ?_, h.inUse⟩⟩
+    refine R_transport hmp0 hfr.1 ?_
+    simp only [eqBlk]; omega
+  | some q =>
+    obtain ⟨hinv, hrl', habs, hoff, hlen, hlive, hrf⟩ := hsp
+    have hcap := hfr.2 q rfl hc0
+    dsimp only
+    simp only [Out.ans, headOfSt, hlen]
+    simp only [monStep, if_true]
+    refine ⟨trivial, ⟨h.capped.ext hext, h.ea, ⟨hinv, hcap, by rw [hrl']; exact hrl, by rw [habs], by rw [hrl']⟩,
+      h.sm.mono (Nat.le_succ _), ?_, h.inUse⟩⟩
+    refine R_transport hmp0 hfr.1 ?_
+    simp only [eqBlk]; omega
+
+theorem eq_family_accept {n : Nat} {s : DsStep.S} {ms : Spec.DSMon.S} (h : Rel n s ms) (op : Op) (hok : OpOk op)
+    (hop : match op with
+      | .eqInit .. | .eqAdd .. | .eqDel | .eqLen | .eqGet .. | .eqSet .. | .eqDump | .eqFree => True
+      | _ => False) : StepGoal n s ms op := by
+  cases hs : s.eq with
+  | none =>
+    cases op <;> simp only at hop
+    case eqInit reclen => exact eq_init_accept h reclen hok.1 hok.2
+    all_goals exact eq_absent_accept h hs _ trivial
+  | some q =>
+    cases op <;> simp only at hop
+    case eqInit reclen => exact eq_init_accept h reclen hok.1 hok.2
+    case eqAdd seed => exact eq_accept_core h hs (e := .add (patBytes seed q.reclen.val)) rfl (patBytes_length _ _)
+    case eqDel => exact eq_accept_core h hs (e := .delete) rfl trivial
+    case eqLen => exact eq_accept_core h hs (e := .getlen) rfl trivial
+    case eqGet pos => exact eq_accept_core h hs (e := .get pos) rfl trivial
+    case eqSet pos seed => exact eq_set_accept h hs pos seed
+    case eqDump => exact eq_dump_accept h hs
+    case eqFree => exact eq_free_accept h hs
+
+theorem ea_family_accept {n : Nat} {s : DsStep.S} {ms : Spec.DSMon.S} (h : Rel n s ms) (op : Op) (hok : OpOk op)
+    (hop : match op with
+      | .eaInit .. | .eaResize .. | .eaAppend .. | .eaShrink .. | .eaTrunc | .eaGet .. | .eaSet .. | .eaGetsize ..
+      | .eaDump | .eaDup .. | .eaExport .. | .eaFree => True
+      | _ => False) : StepGoal n s ms op := by
+  cases hs : s.ea with
+  | none =>
+    cases op <;> simp only at hop
+    case eaInit k reclen seed => exact ea_init_accept h k reclen seed hok
+    all_goals exact ea_absent_accept h hs _ trivial
+  | some a =>
+    cases op <;> simp only at hop
+    case eaInit k reclen seed => exact ea_init_accept h k reclen seed hok
+    case eaResize k reclen seed => exact ea_resize_accept h hs k reclen seed hok
+    case eaAppend k reclen seed => exact ea_append_accept h hs k reclen seed hok
+    case eaShrink k reclen =>
+      exact ea_simple_accept h hs (e := .shrink k ⟨reclen, hok⟩) (by simp [eaOpOf, mk_some hok])
+        (by simp [monEaOpOf, eaOpOf, mk_some hok]) trivial
+    case eaTrunc => exact ea_simple_accept h hs (e := .truncate) rfl rfl trivial
+    case eaGet pos reclen => exact ea_get_accept h hs pos reclen
+    case eaSet pos reclen seed => exact ea_set_accept h hs pos reclen seed
+    case eaGetsize reclen =>
+      exact ea_simple_accept h hs (e := .getsize ⟨reclen, hok⟩) (by simp [eaOpOf, mk_some hok])
+        (by simp [monEaOpOf, eaOpOf, mk_some hok]) trivial
+    case eaDump => exact ea_dump_accept h hs
+    case eaDup reclen =>
+      exact ea_simple_accept h hs (e := .exportdup ⟨reclen, hok⟩) (by simp [eaOpOf, mk_some hok])
+        (by simp [monEaOpOf, eaOpOf, mk_some hok]) trivial
+    case eaExport reclen => exact ea_export_accept h hs reclen hok
+    case eaFree => exact ea_free_accept h hs
+
 end Percival.Proofs.DsStep
